@@ -5,7 +5,9 @@ Tie: correspondence, two parts.
                 $VERIF_REPO/runtime/cpp with ASan+UBSan) vs the Lean model (`model_c06`) and an
                 independent reference (harness/corr/c06_int.py).
   TXT           generated modules -> real header -> WriteToString / UpdateFromText on Ok buffers,
-                judged by the property statement itself (harness/corr/c06_txt.py).
+                judged by the property statement itself (harness/corr/c06_txt.py); the
+                allow_partial_output clause on truncated buffers and on full-size buffers whose view
+                is not Ok by content (invalid BCD digit, failing [requires]).
 """
 import json
 
@@ -32,12 +34,26 @@ def run_txt(chk, tier, model_ok, tag):
     mods = [c06_txt.pinned_f1(), c06_txt.pinned_f13(), c06_txt.pinned_array(), c06_txt.pinned_enum(),
             c06_txt.pinned_anon_skip()]
     n_mod = 8 if tier == "quick" else 60
+    # `[requires]` attributes and the modules about views that are not Ok by content come from a
+    # second stream: module shapes and Ok buffers of the main stream are unchanged by them
+    r2 = common.rng(tag + "-requires")
     for i in range(n_mod):
-        mods.append((c06_gen.gen_module(r, "m%d" % i), "generated", None))
+        mod = c06_gen.gen_module(r, "m%d" % i)
+        c06_gen.decorate_requires(r2, mod)
+        mods.append((mod, "generated", None))
+    n_main = len(mods)
+    for i in range(1 if tier == "quick" else 6):
+        mod = c06_gen.gen_poison_module(r2, "nok%d" % i)
+        fixed = {}
+        for st in c06_txt.tops_of(mod):
+            b = c06_gen.build_buffer(r2, st, mod.default_order)
+            b.poison_variants = 3
+            fixed[st.name] = [b]
+        mods.append((mod, "generated:not-ok-by-content", fixed))
     c06_txt.run_modules(chk, mods, 2 if tier == "quick" else 5, r, model_ok, tier)
     if tier == "thorough":
         # second runtime code path (portable byte loops) and second compiler, on a subset
-        c06_txt.run_modules(chk, mods[:17], 2, r, model_ok, tier, compiler="g++",
+        c06_txt.run_modules(chk, mods[:17] + mods[n_main:n_main + 2], 2, r, model_ok, tier, compiler="g++",
                             defines=("EMBOSS_NO_OPTIMIZATIONS",), opt="-O1")
         chk.extra["second_code_path"] = "g++ -O1 -DEMBOSS_NO_OPTIMIZATIONS on the pinned + first 12 generated modules"
 
@@ -46,7 +62,9 @@ def run(tier):
     chk = common.Check(PROP, tier, exes=["model_c06"])
     chk.cov["rule"] = ("INTCODEC: distinct (type, value, base, grouping) written and read back, distinct "
                        "(type, text) decoded, distinct texts tokenized; TXT: distinct (module, struct, Ok buffer, "
-                       "option set) whose view was Ok and went through WriteToString + UpdateFromText")
+                       "option set) whose view was Ok and went through WriteToString + UpdateFromText; distinct "
+                       "(module, struct, full-size buffer whose view is not Ok by content, option set) written with "
+                       "allow_partial_output and compared with the exact expected text tree")
     import time
     t0 = time.time()
     model_ok = common.proof_gate(chk, search)
@@ -102,6 +120,16 @@ def replay(path):
     print("kind:", rec.get("kind"), " part:", rec.get("part"))
     print("expected:", rec.get("expected"))
     print("recorded observation:", rec.get("observed"))
+    if rec.get("not_ok_by_content"):
+        # a full-size buffer whose view is not Ok by content (c06_gen.poison_buffer): the buffer
+        # below is the poisoned one; `ok_buffer` is the Ok buffer it was derived from
+        print("view not Ok by content:")
+        for x in rec["not_ok_by_content"]:
+            print("   leaf %s (%s%s): %s" % (x.get("leaf"), x.get("kind"),
+                                             ", in " + "/".join(x["context"]) if x.get("context") else "", x.get("how")))
+        print("   derived from the Ok buffer", rec.get("ok_buffer"))
+    if rec.get("allow_partial_output") and rec.get("text") is not None:
+        print("recorded text (allow_partial_output):\n" + str(rec.get("text")))
     if rec.get("part") in ("INTCODEC", "TOK") or "op" in rec and "emb" not in rec:
         binary, log = c06_int.build()
         if binary is None:
